@@ -126,6 +126,13 @@ def run(ctx):
                         how = "copy assignment move-assigns a temporary copy of its argument (copy constructor, then swap in the move assignment)"
         res.check(uses, "C14-R1", "Packet:%s:via-swap" % what.replace(" ", "-"), f.loc, how,
                   "%s does not go through swap(Packet&, Packet&)" % what)
+        if what == "move assignment" and any(fb.resolve_call(c) is sw for c in f.calls()):
+            # swap alone is safe when source and target are the same object; releasing or overwriting a member of *this
+            # first is not (p = std::move(p) would destroy the only payload)
+            direct = [(d, k) for d, k, n in facts.writes_of(f) if d.startswith(PKT + "::") and k != "addr"]
+            res.check(not direct, "C14-R6", "Packet::operator=(Packet&&):self-move", f.loc, "move assignment is the member-wise swap and nothing else",
+                      "move assignment modifies %s before swapping: when source and target are the same object that state is lost (payload destroyed, "
+                      "packet no longer equal to its former value)" % sorted({"%s (%s)" % (d.split("::")[-1], k) for d, k in direct}))
     # payload classes
     for base in (PAY, TPAY):
         r = fb.record(base)
